@@ -92,6 +92,7 @@ type FnCtx struct {
 	crType   map[string]types.Type
 	subSeen  map[string]bool
 	localSubs map[string][]string
+	evalDepth int
 	exitBound map[int]bool
 	ghostAt  map[string]*ssa.BasicBlock
 	uncontracted map[string]bool
@@ -161,8 +162,10 @@ func (fc *FnCtx) unboundAnchors() []string {
 		}
 		return false
 	}
-	for _, a := range fc.con.Asserts {
-		if !a.Optional && !has(a.Anchor) {
+	for i, a := range fc.con.Asserts {
+		// the anchor text must occur, and the clause must have been evaluated there (it is not when a name it
+		// mentions is defined nowhere on the anchored line)
+		if !a.Optional && (!has(a.Anchor) || !fc.anchorsDone[fmt.Sprintf("assertok:%d", i)]) {
 			out = append(out, a.Anchor)
 		}
 	}
